@@ -15,7 +15,9 @@ def run(ctx):
         rp = json.load(open(ctx.replay))
         progs = [p for p in progs if p["id"] == rp["program"]["id"]] or [rp["program"]]
     for p in progs:
-        if p.get("fam") == "grid":
+        # thorough: all 65536 value pairs for the 8-bit x 8-bit programs of the operators whose result depends on promotion
+        # (bitwise & | ^ and the mirrored comparisons keep the boundary / low-byte grids): ~2.8 M evaluations
+        if p.get("fam") == "grid" and (p["tags"][0] != "bin" or p["tags"][1] in ("+", "-", "*", "<<", ">>", "<", ">=", "==", "&&")):
             p["full8"] = True
     res = tvcheck.run_batch(ctx, progs)
     cnt = tvcheck.classify_tv(ctx, res)
